@@ -159,7 +159,7 @@ type Options struct {
 
 // Op is one step.
 type Op struct {
-	K    string   `json:"k"` // update | down | up | bad | rpc
+	K    string   `json:"k"` // update | down | up | upquick | bad | rpc
 	Opts *Options `json:"opts,omitempty"`
 	E    int      `json:"e,omitempty"`
 	Bad  string   `json:"bad,omitempty"` // nodefault | empty-existing | empty-new | nil-options | dialfail
@@ -202,6 +202,7 @@ func (f *Fail) Error() string {
 type recKey struct{}
 
 type world struct {
+	maxTimerMs  int // longest recovery timeout / switching delay of any MultiEndpoint configured in this history
 	everNames   map[string]bool
 	props       map[string]bool
 	labels      map[string]int
@@ -598,6 +599,12 @@ func (o *Options) build(w *world) (*grpcgcp.GCPMultiEndpointOptions, map[string]
 			given = append(given, l[(me.Dup-1)%len(l)])
 			w.labels["endpoint-listed-twice"]++ // counts where it is listed first: the model list is l
 		}
+		if me.RMs > w.maxTimerMs {
+			w.maxTimerMs = me.RMs
+		}
+		if me.DMs > w.maxTimerMs {
+			w.maxTimerMs = me.DMs
+		}
 		mes[name] = &multiendpoint.MultiEndpointOptions{Endpoints: given, RecoveryTimeout: time.Duration(me.RMs) * time.Millisecond, SwitchingDelay: time.Duration(me.DMs) * time.Millisecond}
 		model[name] = l
 	}
@@ -937,6 +944,24 @@ func Run(c *Case, props map[string]bool) (res Result) {
 			w.settle("update", "C15")
 			w.checkPools("update")
 			w.labels["update"]++
+		case "upquick":
+			// the endpoint becomes reachable and the history goes on as soon as its pool is READY (plus Nth ms), without
+			// waiting for routing to follow: a delayed switch to it is still pending when the next operation arrives
+			e := EPNames[((op.E%len(EPNames))+len(EPNames))%len(EPNames)]
+			if w.up[e] {
+				continue
+			}
+			w.up[e] = true
+			all[e].set(true)
+			deadline := time.Now().Add(300 * time.Millisecond)
+			for time.Now().Before(deadline) {
+				if l := w.dialed[e]; len(l) == 0 || l[len(l)-1].GetState() == connectivity.Ready {
+					break
+				}
+				time.Sleep(200 * time.Microsecond)
+			}
+			time.Sleep(time.Duration(op.Nth)*time.Millisecond + 300*time.Microsecond)
+			w.labels["endpoint-up-without-settling"]++
 		case "down", "up":
 			e := EPNames[((op.E%len(EPNames))+len(EPNames))%len(EPNames)]
 			wantUp := op.K == "up"
@@ -1034,6 +1059,13 @@ func Run(c *Case, props map[string]bool) (res Result) {
 		}
 	}
 	w.step = len(c.Ops)
+	if w.maxTimerMs > 0 {
+		// timers armed during the history (delayed switches, recovery windows) fire now: whatever they do, calls are still
+		// routed by the configuration in force and nothing panics or enters a closed pool
+		time.Sleep(time.Duration(w.maxTimerMs+3) * time.Millisecond)
+		w.settle("pending timers fired", "C15")
+		w.labels["closing-round-after-the-timers"]++
+	}
 	extClosed := false
 	if c.ExtClose > 0 {
 		var open []string
